@@ -8,6 +8,7 @@
     pairwise distinct sessions and idle clients -- node table and local maps arbitrary (possibly stale). *)
 From Coq Require Import ZArith List Bool.
 From TM Require Import Node.Presence Node.PresenceP.
+From TM Require Import Node.EpPresence Node.EpPresenceP.
 From TM Require Import Base.ShapeCanon.
 Import ListNotations.
 Open Scope Z_scope.
@@ -79,6 +80,219 @@ Example C17_nonvacuous :
    | None => False
    end).
 Proof. vm_compute. repeat split. Qed.
+
+(** ------------------------------------------------------------------------------------------------------------
+    The two other mechanisms named by C17's anchors: hostname ownership in presence.EndpointPresence.unregister_*
+    and placement ownership in trace.app.zk._unschedule.
+
+    Model: [TM.Node.EpPresence] -- a node table (structured path -> payload bytes, ephemeral owner), and operations
+    [op]: the six EndpointPresence calls and _unschedule by an [agent] (host name, session), plus everybody else
+    (OCreate: the master placing and scheduling, leftovers; ODelete; OExpire).  One operation is one call of the
+    function (its ZooKeeper calls are not interleaved with others: see C17_ep_check_then_act_witness).  The theorems
+    hold for ALL node tables and ALL operation lists by any number of hosts and sessions.  The table is read as a map
+    ([tget]): a statement  tget t' q = ...  for all q  says what was removed AND that nothing else changed. *)
+
+(** unregister_running by host h removes /running/<instance> iff it exists and its data is non-empty and equal to h
+    ([names_running]); every other path, and that path otherwise, is as before; the call returns *)
+Theorem C17_ep_unregister_running_exact : forall a m t q,
+  snd (unregister_running a m t) = Done /\
+  tget (fst (unregister_running a m t)) q =
+    if path_eqb q (PRunning (m_app m)) && holds t q (a_host a) then None else tget t q.
+Proof. intros a m t q. exact (thm_unregister_running_exact a m t q). Qed.
+Print Assumptions C17_ep_unregister_running_exact.
+
+(** unregister_endpoints by host h removes, among the endpoint paths of the manifest it reaches (the loop returns at
+    the first endpoint without a name), exactly those whose data is non-empty and whose text before the first ':'
+    equals h ([names_endpoint]); nothing else changes *)
+Theorem C17_ep_unregister_endpoints_exact : forall a m t q,
+  snd (unregister_endpoints a m t) = Done /\
+  tget (fst (unregister_endpoints a m t)) q =
+    if existsb (fun e => path_eqb q (ep_path (m_app m) e)) (reached (m_eps m)) && holds t q (a_host a)
+    then None else tget t q.
+Proof. intros a m t q. exact (thm_unregister_endpoints_exact a m t q). Qed.
+Print Assumptions C17_ep_unregister_endpoints_exact.
+
+(** unregister_identity by host h removes the identity node iff it holds a mapping whose 'host' is h
+    ([names_identity]); a node holding anything else makes the call raise, and nothing is removed *)
+Theorem C17_ep_unregister_identity_exact : forall a m t q,
+  snd (unregister_identity a m t) =
+    match m_ident m with
+    | Some gi => match tget t (ident_path gi) with
+                 | Some n => match e_data n with DText _ => Raised | DIdent _ _ => Done end
+                 | None => Done
+                 end
+    | None => Done
+    end /\
+  tget (fst (unregister_identity a m t)) q =
+    if match m_ident m with Some gi => path_eqb q (ident_path gi) | None => false end && holds t q (a_host a)
+    then None else tget t q.
+Proof. intros a m t q. exact (thm_unregister_identity_exact a m t q). Qed.
+Print Assumptions C17_ep_unregister_identity_exact.
+
+(** what the three comparisons mean, and that a node names at most one host: a node naming another host never
+    satisfies the comparison of h *)
+Theorem C17_ep_names_spec : forall d h,
+  (names_running d h = true <-> exists s, d = DText s /\ s <> [] /\ s = h) /\
+  (names_endpoint d h = true <-> exists s, d = DText s /\ s <> [] /\ before_colon s = h) /\
+  (names_identity d h = true <-> exists ap, d = DIdent h ap) /\
+  (forall port, existsb (Z.eqb colon) h = false -> before_colon (hostport h port) = h) /\
+  (forall p h2, names p d h = true -> names p d h2 = true -> h = h2).
+Proof.
+  intros d h.
+  exact (conj (names_running_spec d h) (conj (names_endpoint_spec d h) (conj (names_identity_spec d h)
+        (conj (fun port => before_colon_hostport h port) (fun p h2 => names_exclusive p d h h2))))).
+Qed.
+Print Assumptions C17_ep_names_spec.
+
+(** an unregister_* by host h (through whatever session) leaves every node that does not name h in place, with its
+    data and owner; and it never creates or rewrites a node *)
+Theorem C17_ep_unregister_spares_other_hosts : forall o a t q,
+  unregister_by o = Some a ->
+  (forall n, tget t q = Some n -> names q (e_data n) (a_host a) = false -> tget (fst (ep_step t o)) q = Some n) /\
+  (tget (fst (ep_step t o)) q = None \/ tget (fst (ep_step t o)) q = tget t q).
+Proof.
+  intros o a t q Ho.
+  exact (conj (fun n Hq Hn => thm_unregister_spares o a t q n Ho Hq Hn) (thm_unregister_only_removes o a t q Ho)).
+Qed.
+Print Assumptions C17_ep_unregister_spares_other_hosts.
+
+(** along ANY list of operations: a node that names host b stays -- same data, same owner -- unless the list
+    contains an unregister_* by b itself, an explicit delete of that very path, or the expiry of its owner session
+    ([spares]); registrations, unregistrations and _unschedule by any number of other hosts do not touch it *)
+Theorem C17_ep_foreign_nodes_survive : forall b n ops t,
+  tget t (e_path n) = Some n -> names (e_path n) (e_data n) b = true -> forallb (spares b n) ops = true ->
+  tget (ep_run t ops) (e_path n) = Some n.
+Proof. intros b n ops t Hq Hn Hs. exact (thm_survive b n ops t Hq Hn Hs). Qed.
+Print Assumptions C17_ep_foreign_nodes_survive.
+
+(** "the clean-up of an old container never unregisters a newer one", at this level: once EndpointPresence.register of
+    host b has succeeded, each of its nodes (running, every endpoint, identity) is an ephemeral node of b's session
+    naming b, and stays exactly so through any such list of operations *)
+Theorem C17_ep_newer_elsewhere_kept : forall b m t t1 q,
+  host_ok (a_host b) = true -> register_all b m t = (t1, Done) -> In q (registered_paths m) ->
+  exists n, tget t1 q = Some n /\ e_owner n = a_sess b /\ names q (e_data n) (a_host b) = true /\
+            forall ops, forallb (spares (a_host b) n) ops = true -> tget (ep_run t1 ops) q = Some n.
+Proof. intros b m t t1 q Hok Hr Hin. exact (thm_newer_elsewhere_kept b m t t1 q Hok Hr Hin). Qed.
+Print Assumptions C17_ep_newer_elsewhere_kept.
+
+(** ... in particular the clean-up (unregister_running, unregister_endpoints, unregister_identity with ANY manifest
+    m_old) of an older container on another host a, after anything that is neither a direct delete, an expiry nor b's
+    own unregister_* *)
+Theorem C17_ep_cleanup_elsewhere_keeps_newer : forall a b m m_old t t1 q mid,
+  host_ok (a_host b) = true -> text_eqb (a_host a) (a_host b) = false ->
+  register_all b m t = (t1, Done) -> In q (registered_paths m) ->
+  forallb (fun o => match o with ODelete _ | OExpire _ => false | _ => true end) mid = true ->
+  forallb (fun o => match unregister_by o with Some c => negb (text_eqb (a_host c) (a_host b)) | None => true end) mid = true ->
+  tget (ep_run t1 (mid ++ [OUnregRunning a m_old; OUnregEndpoints a m_old; OUnregIdentity a m_old])) q = tget t1 q.
+Proof.
+  intros a b m m_old t t1 q mid Hok Hab Hr Hin H1 H2.
+  exact (thm_cleanup_elsewhere_keeps_newer a b m m_old t t1 q mid Hok Hab Hr Hin H1 H2).
+Qed.
+Print Assumptions C17_ep_cleanup_elsewhere_keeps_newer.
+
+(** _unschedule on host h removes /scheduled/<instance> iff /placement/<h>/<instance> exists, and changes nothing else;
+    without the placement it changes nothing at all *)
+Theorem C17_ep_unschedule_exact : forall h i t,
+  (forall q, tget (unschedule h i t) q =
+             if path_eqb q (PScheduled i) && texists t (PPlacement h i) then None else tget t q) /\
+  (tget t (PPlacement h i) = None -> unschedule h i t = t).
+Proof. intros h i t. exact (conj (thm_unschedule_exact h i t) (thm_unschedule_stale_noop h i t)). Qed.
+Print Assumptions C17_ep_unschedule_exact.
+
+(** stale events: host a does not hold the placement of instance i (it was placed elsewhere, or nowhere) and the
+    operations do not give it to a ([stale_for]: no creation of /placement/a/i, no direct delete of /scheduled/i, no
+    expiry of its owner, _unschedule of i only by a).  Then /scheduled/i stays whatever a processes, and a further stale
+    event of a changes nothing in the whole table *)
+Theorem C17_ep_stale_events_keep_scheduled : forall a i n ops t sess,
+  tget t (PPlacement a i) = None -> tget t (PScheduled i) = Some n -> forallb (stale_for a i n) ops = true ->
+  tget (ep_run t ops) (PPlacement a i) = None /\ tget (ep_run t ops) (PScheduled i) = Some n /\
+  ep_run t (ops ++ [OUnschedule {| a_host := a; a_sess := sess |} i]) = ep_run t ops.
+Proof.
+  intros a i n ops t sess Hp Hs Hst.
+  destruct (thm_stale_events_keep_scheduled a i n ops t Hp Hs Hst) as [H1 H2].
+  exact (conj H1 (conj H2 (thm_stale_event_changes_nothing a i n ops t sess Hp Hs Hst))).
+Qed.
+Print Assumptions C17_ep_stale_events_keep_scheduled.
+
+(** non-vacuity and the limits of hostname ownership.  Bytes: "na" = [110;97], "nb" = [110;98], "5000"/"5001".
+    Instance 12, endpoint (tcp=1, http=7), identity (group 1, id 0). *)
+Definition hA : text := [110; 97].
+Definition hB : text := [110; 98].
+Definition p5000 : text := [53; 48; 48; 48].
+Definition p5001 : text := [53; 48; 48; 49].
+Definition agA (s : Z) : agent := {| a_host := hA; a_sess := s |}.
+Definition agB (s : Z) : agent := {| a_host := hB; a_sess := s |}.
+Definition mf (port : text) : manifest :=
+  {| m_app := 12; m_eps := [ {| ep_proto := 1; ep_name := 7; ep_port := port |} ]; m_ident := Some (1, 0) |}.
+Definition unreg_all (a : agent) (m : manifest) : list op := [OUnregRunning a m; OUnregEndpoints a m; OUnregIdentity a m].
+Definition reg_all (a : agent) (m : manifest) : list op := [ORegIdentity a m; ORegRunning a m; ORegEndpoints a m].
+Definition view (t : table) := map (fun n => (e_path n, e_data n, e_owner n)) t.
+
+(** host A (session 101) registers container 1; the session expires; the instance is placed on B, which registers
+    (session 102); the late clean-up of container 1 on A -- through A's new session 103 -- removes nothing; B's own
+    unregister removes everything.  Placement: the master places 12 on A, schedules it, moves it to B; A's stale event
+    leaves /scheduled/12, B's event removes it (and only it). *)
+Example C17_ep_nonvacuous :
+  host_ok hA = true /\ host_ok hB = true /\
+  register_all (agB 102) (mf p5001) [] =
+    ([ {| e_path := PIdentity 1 0; e_data := DIdent hB 12; e_owner := 102 |};
+       {| e_path := PRunning 12; e_data := DText hB; e_owner := 102 |};
+       {| e_path := PEndpoint 12 1 7; e_data := DText (hostport hB p5001); e_owner := 102 |} ], Done) /\
+  view (ep_run [] (reg_all (agA 101) (mf p5000) ++ [OExpire 101] ++ reg_all (agB 102) (mf p5001) ++ unreg_all (agA 103) (mf p5000)))
+    = [ (PIdentity 1 0, DIdent hB 12, 102); (PRunning 12, DText hB, 102); (PEndpoint 12 1 7, DText (hostport hB p5001), 102) ] /\
+  ep_run [] (reg_all (agB 102) (mf p5001) ++ unreg_all (agB 999) (mf p5000)) = [] /\
+  (let placed := ep_run [] [OCreate (PPlacement hA 12) (DText []) 0; OCreate (PScheduled 12) (DText []) 0;
+                         ODelete (PPlacement hA 12); OCreate (PPlacement hB 12) (DText []) 0] in
+   forallb (stale_for hA 12 {| e_path := PScheduled 12; e_data := DText []; e_owner := 0 |})
+           [ORegRunning (agB 102) (mf p5001); OUnschedule (agA 103) 12; OExpire 101] = true /\
+   ep_run placed [OUnschedule (agA 103) 12] = placed /\
+   view (ep_run placed [OUnschedule (agB 102) 12]) = [ (PPlacement hB 12, DText [], 0) ]) /\
+  (* a node holding something else than a mapping: unregister_identity raises and removes nothing *)
+  ep_step [ {| e_path := PIdentity 1 0; e_data := DText hA; e_owner := 5 |} ] (OUnregIdentity (agA 101) (mf p5000))
+    = ([ {| e_path := PIdentity 1 0; e_data := DText hA; e_owner := 5 |} ], Raised).
+Proof. vm_compute. repeat split. Qed.
+
+(** LIMIT 1 (hostname ownership does not tell two containers on the SAME host apart): host A registers container 1
+    (session 101, port 5000), the session expires, A registers the newer container 2 of the same instance (session 102,
+    port 5001); the clean-up of container 1 -- manifest of container 1, hence port 5000 -- removes all three nodes of
+    container 2.  unregister_endpoints does not compare the port, unregister_running/identity have nothing else to
+    compare.  (Within /repo unregister_* is only called by presence.kill_node, which means to remove every node of
+    the host; the per-container guarantee is C17_newer_kept above, for PresenceResourceService.) *)
+Theorem C17_ep_same_host_newer_refuted :
+  exists t1 ops, register_all (agA 102) (mf p5001) (ep_run [] (reg_all (agA 101) (mf p5000) ++ [OExpire 101])) = (t1, Done) /\
+    length t1 = 3%nat /\
+    ops = unreg_all (agA 102) (mf p5000) /\
+    (forall n, In n t1 -> e_owner n = 102 /\ names (e_path n) (e_data n) hA = true) /\
+    ep_run t1 ops = [].
+Proof.
+  eexists. eexists. split; [vm_compute; reflexivity|]. split; [reflexivity|]. split; [reflexivity|]. split.
+  - intros n Hn. cbn in Hn. destruct Hn as [Hn | [Hn | [Hn | []]]]; subst n; vm_compute; split; reflexivity.
+  - vm_compute. reflexivity.
+Qed.
+Print Assumptions C17_ep_same_host_newer_refuted.
+
+(** LIMIT 2 (the endpoint comparison is "text before the first ':'", not "h:<port of this container>"): an endpoint
+    node holding just the host name, or the host name with another port, or with more fields, is removed *)
+Theorem C17_ep_port_not_compared :
+  forall d, In d [DText hA; DText (hostport hA p5001); DText (hostport hA (p5000 ++ colon :: p5001))] ->
+    d <> DText (hostport hA p5000) /\
+    fst (unregister_endpoints (agA 101) (mf p5000) [ {| e_path := PEndpoint 12 1 7; e_data := d; e_owner := 77 |} ]) = [].
+Proof.
+  intros d Hd. cbn in Hd. destruct Hd as [Hd | [Hd | [Hd | []]]]; subst d; split; try discriminate; vm_compute; reflexivity.
+Qed.
+Print Assumptions C17_ep_port_not_compared.
+
+(** LIMIT 3 (granularity): the get and the delete of unregister_* (likewise exists/delete of _unschedule) are two
+    ZooKeeper calls.  If they are separated -- A's check succeeds, the owner session expires, B registers, A's delete
+    is performed -- B's node is removed.  The theorems above are about whole calls. *)
+Theorem C17_ep_check_then_act_witness :
+  let p := PRunning 12 in
+  let t0 := fst (ep_step [] (ORegRunning (agA 101) (mf p5000))) in
+  let t1 := ep_run t0 [OExpire 101; ORegRunning (agB 102) (mf p5001)] in
+  unreg_check t0 p hA = true /\ unreg_check t1 p hA = false /\
+  view t1 = [ (p, DText hB, 102) ] /\ unreg_act t1 p = [] /\ unreg_node t1 p hA = t1.
+Proof. vm_compute. repeat split. Qed.
+Print Assumptions C17_ep_check_then_act_witness.
 
 (** the functions named by this property's anchors still have the statement skeleton the model was written from
     (re-extracted from the Python AST on every run, harness/tables_shape.py + harness/shape_pins.json; kept last so that
